@@ -29,5 +29,8 @@ G_ClearWhileBusy    == ~(\E c \in Clients : pc[c] = "clr_stop" /\ apc \in {"new_
 G_ExpiredUnswept    == ~(\E h \in Hashes : store[h] # NULL /\ store[h].exp # 0 /\ store[h].exp < now /\
                           \E c \in Clients : pc[c] \in {"clr_stop", "set_send"})
 G_ClearWithPending  == ~(\E c \in Clients : pc[c] = "clr_stop" /\ buf # <<>> /\ \E i \in DOMAIN buf : buf[i].t = "new")
+G_SameBucketRewrite == ~(lastUpd.old # 0 /\ lastUpd.new # 0 /\ lastUpd.old # lastUpd.new /\ Bucket(lastUpd.old) = Bucket(lastUpd.new)
+                          /\ \E c \in Clients : pc[c] = "set_send")
+G_TTLDropped        == ~(lastUpd.old # 0 /\ lastUpd.new = 0 /\ \E c \in Clients : pc[c] = "set_send")
 G_RaiseCost         == ~(raised /\ used > maxCost)
 =============================================================================
